@@ -1012,7 +1012,8 @@ class Engine:
                         model[d.name()] = str(m[d])
         stack = [fr.fn.name for fr in reversed(st.frames[-8:])]
         self.violations.append({"msg": msg, "aid": aid or msg.split(":")[0], "stack": stack, "model": model,
-                                "replay": rp, "reached": list(st.reached), "user": dict(st.user)})
+                                "replay": rp, "reached": list(st.reached),
+                                "user": {k: v for k, v in st.user.items() if isinstance(v, (int, float, str, bool)) and not str(k).startswith("_")}})
         return PathEnd("violation", msg)
 
     def minval(self, st, x, above=None):
